@@ -16,6 +16,14 @@ def run(out, tier, flavour="c07", prop="C07"):
         out.add_tlc(r, "LayerStackTrace: trace validation chunk")
     out.tlc_runs = [{"what": "LayerStackTrace (%s): %d chunks of implementation traces validated against A (every operation judged by OpOk/Target)" % (flavour, len(results)),
                      "distinct": out.states, "generated": out.transitions}]
+    if prop == "C07":
+        # the mechanism of the per-thread filter bitmap: a repaired design satisfies the property in every reachable state,
+        # the code's design yields the F3 history (probe, then an emission whose cached interest is `always`)
+        D = SPEC / "LayerStack"
+        r = vlib.require_ok(vlib.tlc(D, "FilterBitmap", cfg="FilterBitmap", workers=2, timeout=600), "FilterBitmap (repaired design)")
+        out.add_tlc(r, "FilterBitmap exhaustive: 3 layers x 5 levels, probes and emissions in any order, probe consumes its bits: Exact holds")
+        r3 = vlib.tlc(D, "FilterBitmap", cfg="FilterBitmapF3", workers=2, timeout=600)
+        out.extra["f3_counterexample_in_model"] = (r3.kind == "invariant")
     judge(out, behs, lines, found, prop)
 
 
